@@ -175,7 +175,7 @@ pub fn generate(rng: &mut Rng, property: &str, deep: bool) -> BScn {
     } else {
         *rng.pick(&[4_166_667u64, 16_666_667, 33_333_333, 100_000_000, 370_000_000])
     };
-    let n_frames = if deep && rng.chance(0.33) { rng.range(64, 240) as usize } else { rng.range(4, 64) as usize };
+    let n_frames = if (deep && rng.chance(0.33)) || rng.chance(0.04) { rng.range(64, 240) as usize } else { rng.range(4, 64) as usize };
 
     // bookkeeping to aim faults (not the oracle): rough position of the Target animator
     let mut cur_tl: Option<usize> = if cfg.selector {
